@@ -38,7 +38,7 @@ var embPaths = []embPath{
 }
 
 var embSchemes = []string{"https://", "http://", "//", "relative-on-list", "relative-off-list", "no-scheme"}
-var embCarriers = []string{"iframe", "object-data", "object-param", "tw-iframe", "tw-bq", "tw-bq-nested", "iframe-lazy"}
+var embCarriers = []string{"iframe", "object-data", "object-param", "tw-iframe", "tw-bq", "tw-bq-nested", "iframe-lazy", "picture-iframe"}
 
 type embCase struct {
 	H       embHost
@@ -64,8 +64,8 @@ func embFromIndex(k int) embCase {
 
 // trueHostService returns the service of the host the URL really points to.
 func (e embCase) service() string {
-	if e.Carrier == "iframe-lazy" {
-		return "" // the frame really loads from its src, an unlisted host
+	if e.Carrier == "iframe-lazy" || e.Carrier == "picture-iframe" {
+		return "" // the frame really loads from its src, an unlisted host / is not a frame of the page's own
 	}
 	switch e.Scheme {
 	case "relative-on-list":
@@ -123,6 +123,9 @@ func (e embCase) element() string {
 	case "iframe-lazy":
 		// the allow-listed URL only sits in lazy-loading attributes; the frame itself loads from elsewhere
 		return fmt.Sprintf(`<iframe src="https://ads.example.net/slot/%s.html" data-src="%s" data-original="%s" data-tweet-id="TW%s"></iframe>`, e.ID, src, src, e.ID)
+	case "picture-iframe":
+		// frames hidden among the children of a <picture> (which is cloned into the output)
+		return fmt.Sprintf(`<picture><span class="spinner"></span><iframe src="https://tracker.example.net/t/%s"></iframe><source srcset="/img/%s.webp 1x"><b>x</b><iframe src="%s"></iframe><img src="/img/%s.png" width="640" height="480"></picture>`, e.ID, e.ID, src, e.ID)
 	case "tw-bq-nested":
 		// a tweet quote that carries foreign frames inside
 		return fmt.Sprintf(`<blockquote class="twitter-tweet"><p>hello world <iframe src="https://ads.example.net/frame/%s"></iframe></p><div><object data="https://ads.example.net/o.swf"><iframe src="/local/frame.html"></iframe></object></div>&mdash; someone <a href="%s">date</a></blockquote>`, e.ID, src)
@@ -152,7 +155,7 @@ func genEmbedDoc(r *RNG) string {
 func init() {
 	register(&Prop{
 		ID: "C19",
-		Rule: "full grid every run: 28 hosts (allow-listed roots, their subdomains, suffix look-alikes youtube.com.evil.example, prefix look-alikes evilyoutube.com / xplayer.vimeo.com, vimeo.com itself, userinfo tricks youtube.com@evil.example, upper case, port, trailing dot) x 14 path/query shapes (/embed/ID, /embed/ID/, /v/ID&x=1, /v/ID?x=1, /video/ID, /ID, container only, root, service name only in path or query, /user/status/ID, parameters+fragment) x 6 source forms (https, http, scheme-relative, relative with the page on / off the allow list, host name without scheme = relative path) x 6 carriers (iframe, object[data], object>param[name=movie], rendered twitter iframe with data-tweet-id, twitter blockquote with the tweet link as last anchor, the same with foreign iframes/objects nested inside, an iframe whose src is foreign while the allow-listed URL sits in data-src) = 16464 cases, each between two long paragraphs (quick) and additionally inside random articles (thorough). Oracle: a placeholder may exist only if the TRUE host (known by construction) is allow-listed; its data-type must be that service and data-id the id encoded in the URL (last path segment, resp. data-tweet-id); no bare <iframe> may survive. Non-trivial = every grid cell; distinct = distinct cells.",
+		Rule: "full grid every run: 28 hosts (allow-listed roots, their subdomains, suffix look-alikes youtube.com.evil.example, prefix look-alikes evilyoutube.com / xplayer.vimeo.com, vimeo.com itself, userinfo tricks youtube.com@evil.example, upper case, port, trailing dot) x 14 path/query shapes (/embed/ID, /embed/ID/, /v/ID&x=1, /v/ID?x=1, /video/ID, /ID, container only, root, service name only in path or query, /user/status/ID, parameters+fragment) x 6 source forms (https, http, scheme-relative, relative with the page on / off the allow list, host name without scheme = relative path) x 6 carriers (iframe, object[data], object>param[name=movie], rendered twitter iframe with data-tweet-id, twitter blockquote with the tweet link as last anchor, the same with foreign iframes/objects nested inside, an iframe whose src is foreign while the allow-listed URL sits in data-src, iframes among the children of a <picture>) = 18816 cases, each between two long paragraphs (quick) and additionally inside random articles (thorough). Oracle: a placeholder may exist only if the TRUE host (known by construction) is allow-listed; its data-type must be that service and data-id the id encoded in the URL (last path segment, resp. data-tweet-id); no bare <iframe> may survive. Non-trivial = every grid cell; distinct = distinct cells.",
 		Assumptions: []string{
 			"'only if': an allow-listed source that is not turned into a placeholder (port, case, unsupported carrier) is not a violation",
 			"the id 'taken from the URL' is the last non-empty path segment (not the container words embed/video), for rendered tweets the data-tweet-id attribute",
